@@ -69,7 +69,7 @@ def check(pid, tier, seed):
         for kind in range(4):
             for args in range(3):
                 xid = "p%d-k%d-a%d" % (pi, kind, args)
-                lines.append("X %s mode=script kind=%d args=%d" % (xid, kind, args))
+                lines.append("X %s mode=script kind=%d args=%d form=%d" % (xid, kind, args, (pi + kind + args) % 2))
                 for ei in path:
                     lines.append("S t=%d" % (1 if g.edges[ei][2].startswith("T") else 0))
                 lines.append("E")
@@ -77,7 +77,7 @@ def check(pid, tier, seed):
     n_y = {"quick": 240, "thorough": 200000}[tier]
     rnd = random.Random("thr-%s" % seed)
     for i in range(n_y):
-        lines += ["X y%d mode=random kind=%d args=%d seed=%d" % (i, i % 4, (i // 4) % 3, rnd.randrange(1, 2 ** 31)), "E"]
+        lines += ["X y%d mode=random kind=%d args=%d form=%d seed=%d" % (i, i % 4, (i // 4) % 3, (i // 12) % 2, rnd.randrange(1, 2 ** 31)), "E"]
     res = common.run_harness(exe, "\n".join(lines) + "\n")
     # 'poll' scenario on the access-instrumented build
     plines = []
@@ -87,7 +87,7 @@ def check(pid, tier, seed):
     # on this build every atomic operation can be made a scheduling point (ay=1): the new thread may then run, and even
     # finish, while the starter is still inside start()
     for i in range(n_poll * 2):
-        plines += ["X ay%d mode=random kind=%d args=%d ay=1 accy=%d seed=%d" % (i, i % 4, (i // 4) % 3, 0 if i % 2 else 1500, rnd.randrange(1, 2 ** 31)), "E"]
+        plines += ["X ay%d mode=random kind=%d args=%d form=%d ay=1 accy=%d seed=%d" % (i, i % 4, (i // 4) % 3, (i // 12) % 2, 0 if i % 2 else 1500, rnd.randrange(1, 2 ** 31)), "E"]
     pres = common.run_harness(race_harness(), "\n".join(plines) + "\n")
     for xid, recs in pres.items():
         res[xid] = recs
